@@ -427,6 +427,12 @@ class Run:
         its = las.items()
         if len(its) != len(items) or any(k != it.mnemonic or v is not it.data for (k, v), it in zip(its, items)):
             V("items-view", "items() disagrees with the curves " + tag)
+        try:
+            if list(las.iterkeys()) != sess or [id(v) for v in las.itervalues()] != [id(it.data) for it in items] or \
+                    [(k, id(v)) for k, v in las.iteritems()] != [(it.mnemonic, id(it.data)) for it in items]:
+                V("iter-views", "iterkeys()/itervalues()/iteritems() disagree with the curves " + tag)
+        except Exception as e:
+            V("iter-views", "iterator views raised %r %s" % (e, tag))
         n = len(items)
         if n:
             if las.index is not items[0].data:
